@@ -237,7 +237,8 @@ Definition monitor (t : list event) (ens : list (N * N * nat)) : term :=
     | Some i =>
         let pre := skipn (List.length t - i) t in
         match nth_error t (List.length t - 1 - i) with
-        | Some e => TL [TS "rule_broken"; tn (N.of_nat i); TS (why_bad pre e); t_event e]
+        | Some e => TL [TS "rule_broken"; tn (N.of_nat i); TS (why_bad pre e); t_event e;
+                        TL [TS "all_cert_quorums_agree"; tb certs_ok]; TL [TS "ensures_agree_and_certified"; tb ens_ok]]
         | None => TL [TS "rule_broken"; tn (N.of_nat i)]
         end
     | None =>
